@@ -143,6 +143,13 @@ theorem sockOps_reach {s : State} (h : Reach s) : ∀ c, sockOps (s.prog (.sock 
           obtain ⟨rfl, -⟩ := hs
           simpa using ih c
         · simp at hs
+      | routerOk c0 =>
+        simp only [step] at hs
+        split at hs
+        · simp only [Option.some.injEq, Prod.mk.injEq] at hs
+          obtain ⟨rfl, -⟩ := hs
+          simpa using ih c
+        · simp at hs
       | stopReq c0 =>
         simp only [step] at hs
         split at hs
@@ -276,6 +283,13 @@ theorem nonmicro_prog_ind (P : List MOp → Prop)
       · exact hp
     · simp at hs
   | connect a p =>
+    simp only [step] at hs
+    split at hs
+    · simp only [Option.some.injEq, Prod.mk.injEq] at hs
+      obtain ⟨rfl, -⟩ := hs
+      simpa using hp
+    · simp at hs
+  | routerOk c =>
     simp only [step] at hs
     split at hs
     · simp only [Option.some.injEq, Prod.mk.injEq] at hs
@@ -600,5 +614,133 @@ theorem waitInv_reach {s : State} (h : Reach s) : WaitInv s := by
       have := ih th' pid hold
       have e := step_nonmicro_tables ha' hs th'.ctx
       exact ⟨by rw [e.pobj]; exact this.ex, by rw [e.pobj, e.byKey]; exact this.live⟩
+
+
+/-! ### stuck ⇒ nobody waits -/
+
+/-- the actions the system performs by itself (threads continuing their programs, the socket threads taking the next
+callback / message / end-of-stream) — as opposed to new user-level calls, `connect` and `stop` -/
+def Act.internal : Act → Bool
+  | .micro .. => true
+  | .cb .. => true
+  | .arrive .. => true
+  | .eof .. => true
+  | _ => false
+
+/-- no internal action is enabled -/
+def Stuck (s : State) : Prop := ∀ a, a.internal = true → step s a = none
+
+/-- **the peer-side obligation** (not mechanised): a request that is registered on a connection end of a live context
+is being worked on — its request message, the peer's handler, its reply, or the teardown of the connection provides an
+enabled internal action. -/
+def NetLive (s : State) : Prop :=
+  ∀ cn cli id, cn < s.nextConn → (s.ctx ((s.conn cn).half cli).owner).alive = true → id ∈ ((s.conn cn).half cli).pend →
+    ∃ a, a.internal = true ∧ (step s a).isSome = true
+
+theorem head_isCar_of_carPrefix {op : MOp} {rest : List MOp} (h : carPrefix (op :: rest))
+    (hex : ∃ op' ∈ op :: rest, op'.isCar = true) : op.isCar = true := by
+  cases hc : op.isCar with
+  | true => rfl
+  | false =>
+    obtain ⟨op', hm, hcar⟩ := hex
+    have hfree := carFree_rest_of_head h hc
+    rcases List.mem_cons.1 hm with rfl | hm
+    · rw [hc] at hcar; exact hcar
+    · rw [hfree op' hm] at hcar; exact absurd hcar (by simp)
+
+theorem isWait_false_of_isCar {op : MOp} (h : op.isCar = true) : op.isWait = false := by
+  cases op <;> simp_all [MOp.isCar, MOp.isWait]
+
+theorem isWait_false_of_sockOp {op : MOp} (h : op.isSockOp = true) : op.isWait = false := by
+  cases op <;> simp_all [MOp.isSockOp, MOp.isWait]
+
+theorem step_micro_of_enabled {s : State} {th : Th} {op : MOp} {rest : List MOp} {ch ch2 : Nat}
+    (hal : (s.ctx th.ctx).alive = true) (hp : s.prog th = op :: rest)
+    (he : (microStep s th ch ch2 op rest).isSome = true) : (step s (.micro th ch ch2)).isSome = true := by
+  simp only [step, hal, if_true, hp]; exact he
+
+/-- the socket thread of a live context with a non-empty queue can always take the next callback -/
+theorem cb_enabled {s : State} {c : Ctx} (hal : (s.ctx c).alive = true) (hidle : s.prog (.sock c) = [])
+    (hq : (s.ctx c).loopQ ≠ []) : (step s (.cb c true)).isSome = true := by
+  simp only [step, hal, hidle, and_self, if_true]
+  cases hl : (s.ctx c).loopQ with
+  | nil => exact absurd hl hq
+  | cons cb q =>
+    cases cb with
+    | smSend d m =>
+      simp only [smSendStep, setCtx_ctx, if_true]
+      cases hp : (s.ctx c).peers d <;> simp
+    | disconnect n t =>
+      simp only
+      cases hp : (s.ctx c).peers n <;> simp
+
+/-- **stuck ⇒ answered**: if no internal action is enabled (and the peer-side obligation holds), no live context has
+an outstanding request, and no thread of a live context sits in a `subscribe` call (the only blocking operation left
+is the `waitFut` of a `disconnect_from_peer` call) -/
+theorem stuck_implies_answered {s : State} (h : Reach s) (hst : Stuck s) (hnet : NetLive s) :
+    (∀ c id, (s.ctx c).alive = true → (s.ctx c).byId id = none) ∧
+    (∀ th, (s.ctx th.ctx).alive = true → s.prog th = [] ∨ ∃ rest, s.prog th = .waitFut :: rest) := by
+  have hcp := carPrefix_reach h
+  -- every live thread with a non-waiting head could move
+  have hmove : ∀ th op rest, (s.ctx th.ctx).alive = true → s.prog th = op :: rest → op.isWait = true := by
+    intro th op rest hal hp
+    cases hw : op.isWait with
+    | true => rfl
+    | false =>
+      obtain ⟨ch, ch2, he⟩ := micro_enabled h hp hw
+      have := hst (.micro th ch ch2) rfl
+      have h2 := step_micro_of_enabled hal hp he
+      rw [this] at h2; simp at h2
+  have hans : ∀ c id, (s.ctx c).alive = true → (s.ctx c).byId id = none := by
+    intro c id hal
+    cases hb : (s.ctx c).byId id with
+    | none => rfl
+    | some pid =>
+      exfalso
+      rcases carrierInv_reach h c id hal (by rw [hb]; simp) with ⟨th, hc, op, ho, hcar⟩ | ⟨cb, hcb, hcar⟩ | ⟨cn, cli, h1, h2, h3⟩
+      · cases hp : s.prog th with
+        | nil => rw [hp] at ho; simp at ho
+        | cons hd rest =>
+          have hcar' : hd.isCar = true :=
+            head_isCar_of_carPrefix (hp ▸ hcp th) ⟨op, hp ▸ ho, MOp.isCar_of_carries hcar⟩
+          have := hmove th hd rest (by rw [hc]; exact hal) hp
+          rw [isWait_false_of_isCar hcar'] at this; simp at this
+      · cases hp : s.prog (.sock c) with
+        | nil =>
+          have := cb_enabled hal hp (by intro e; rw [e] at hcb; simp at hcb)
+          rw [hst (.cb c true) rfl] at this; simp at this
+        | cons hd rest =>
+          have hso := sockOps_reach h c hd (by rw [hp]; exact List.mem_cons_self)
+          have := hmove (.sock c) hd rest hal hp
+          rw [isWait_false_of_sockOp hso] at this; simp at this
+      · obtain ⟨a, ha, he⟩ := hnet cn cli id h1 (by rw [h2]; exact hal) h3
+        rw [hst a ha] at he; simp at he
+  refine ⟨hans, ?_⟩
+  intro th hal
+  cases hp : s.prog th with
+  | nil => exact Or.inl rfl
+  | cons hd rest =>
+    right
+    have hw := hmove th hd rest hal hp
+    cases hd <;> simp only [MOp.isWait] at hw <;> (try contradiction)
+    · -- `wait pid`: the pending object is completed (then `wait` could move) or still registered (then a request is outstanding)
+      rename_i pid
+      exfalso
+      have hwo := waitInv_reach h th pid (by rw [hp]; exact List.mem_cons_self)
+      have hpk := pendInv_reach h th.ctx
+      cases hpo : (s.ctx th.ctx).pobj pid with
+      | none => exact hwo.ex hpo
+      | some po =>
+        rcases (hwo.live po hpo).2 with hd | hk
+        · have : (microStep s th 0 0 (.wait pid) rest).isSome = true := by
+            simp only [microStep, hpo]
+            cases hdone : po.done with
+            | none => exact absurd hdone hd
+            | some b => cases b <;> rfl
+          have h2 := step_micro_of_enabled hal hp this
+          rw [hst (.micro th 0 0) rfl] at h2; simp at h2
+        · have := hpk.byKey_cur _ pid po hk hpo
+          rw [hans th.ctx po.cur hal] at this; simp at this
+    · exact ⟨rest, rfl⟩
 
 end QmiModel.PubSub
